@@ -231,7 +231,18 @@ def formula_of(c):
     """-> (formula, variables, ranges)"""
     k = c['kind']
     if k == 'choose':
-        return 'CHOOSE(' + ','.join([spec_text(c['i'])] + [lit_value(v) for v in c['vals']]) + ')', {}, {}
+        # a value that is an array is written as an array literal, or (src var) handed over in a variable
+        vs, parts = {}, []
+        for j, v in enumerate(c['vals']):
+            if isinstance(v, list):
+                if c.get('src') == 'var':
+                    vs['W%s' % 'abcdefgh'[j]] = v
+                    parts.append('W%s' % 'abcdefgh'[j])
+                else:
+                    parts.append(lit_array(v))
+            else:
+                parts.append(lit_value(v))
+        return 'CHOOSE(' + ','.join([spec_text(c['i'])] + parts) + ')', vs, {}
     at, vs, rs = array_term(c)
     if k == 'index':
         r, cc = c['r'], c['c']
@@ -319,6 +330,16 @@ def cases(rng, ctx):
     for sp in ODD_SPECS + [{'raw': ''}]:
         out.append({'kind': 'choose', 'vals': make_array(0, 3, 'num'), 'i': sp})
     out.append({'kind': 'choose', 'vals': [], 'i': 1})
+    # values that are arrays are chosen whole: CHOOSE(i, {v1..vm}) has ONE value (i = 1 addresses it, every other i is an error)
+    for shp in [(0, 1), (0, 2), (0, 3), (0, 5), (2, 2), (2, 3)]:
+        for kind in ('num', 'text'):
+            a = make_array(shp[0], shp[1], kind)
+            for src in ('lit', 'var'):
+                for i in range(-2, shp[1] + 4):
+                    out.append({'kind': 'choose', 'vals': [a], 'i': i, 'src': src})
+                b = make_array(0, 2, kind)
+                for i in range(0, 5):
+                    out.append({'kind': 'choose', 'vals': [a, 7, b], 'i': i, 'src': src})
 
     # ---- INDEX, complete index sweeps on variables
     if thorough:
